@@ -5,6 +5,7 @@ import (
 	"fmt"
 	"os"
 	"runtime/debug"
+	"sort"
 	"strconv"
 	"testing"
 	"time"
@@ -110,6 +111,13 @@ func runOne(t *testing.T, c *Case) *CaseResult {
 		cr = &CaseResult{Prop: c.Prop}
 		cr.violate(c.Prop+"/harness", "case function did not return", "")
 	}
+	sort.SliceStable(cr.Violations, func(i, j int) bool {
+		a, b := cr.Violations[i], cr.Violations[j]
+		if a.Oracle != b.Oracle {
+			return a.Oracle < b.Oracle
+		}
+		return a.Signature < b.Signature
+	})
 	cr.Idx = c.Idx
 	cr.Seed = c.Seed
 	cr.CaseHash = hashCase(c)
@@ -140,4 +148,12 @@ func TestDumpCase(t *testing.T) {
 	if err := os.WriteFile(path, b, 0o644); err != nil {
 		t.Fatal(err)
 	}
+}
+
+// TestFreshPublish is the child side of the "fresh process" history variant.
+func TestFreshPublish(t *testing.T) {
+	if os.Getenv("SIM_FRESH_CASE") == "" {
+		t.Skip("driven by the publish engine")
+	}
+	RunFreshPublish(t)
 }
